@@ -319,10 +319,45 @@ fn lone_timer_vs_polling(out: &mut Out, rounds: usize) {
     out.add("lone_timer_vs_polling_rounds", rounds as u64);
 }
 
+
+/// a cancel issued shortly BEFORE the deadline (it has returned before `scheduling call + duration`)
+/// against a receiver blocked inside receive_timeout() / receive(): the timer is never delivered
+fn late_cancel_vs_blocked(out: &mut Out, rounds: usize) {
+    use std::time::{Duration, Instant};
+    let mut q = message_io::events::EventReceiver::<u64>::default();
+    let s = q.sender().clone();
+    let dur = Duration::from_millis(15);
+    let (mut valid, mut bad) = (0u64, vec![]);
+    for round in 1..=rounds as u64 {
+        let before = Duration::from_micros([250u64, 120, 400, 60, 480][(round % 5) as usize]);
+        let blocking = round % 3 == 0;
+        let t0 = Instant::now();
+        let id = s.send_with_timer(round, dur);
+        let canceller = { let s = s.clone(); std::thread::spawn(move || {
+            while Instant::now() < t0 + dur - before { std::hint::spin_loop(); }
+            s.cancel_timer(id);
+            let ok = Instant::now() < t0 + dur;
+            if blocking { std::thread::sleep(Duration::from_millis(25)); s.send(u64::MAX); }
+            ok
+        }) };
+        let mut got = vec![];
+        if blocking {
+            loop { let e = q.receive(); if e == u64::MAX { break; } got.push(e); }
+        } else if let Some(e) = q.receive_timeout(Duration::from_millis(45)) { got.push(e); }
+        let ok = canceller.join().unwrap_or(false);
+        if ok { valid += 1; if !got.is_empty() && bad.len() < 4 { bad.push((round, before.as_micros() as u64, blocking, got)); } }
+    }
+    if !bad.is_empty() {
+        out.violation(&format!("[C08] a timer cancelled before its deadline (cancel_timer() had returned before scheduling call + duration) was delivered to a receiver blocked in a receive call: (round, cancel issued N us before the deadline, receiver in receive() rather than receive_timeout(), delivered) {:?}; {} of {} rounds had a cancel in time", bad, valid, rounds));
+    }
+    out.add("late_cancel_rounds_with_cancel_in_time", valid);
+}
+
 pub fn run(a: &Args) {
     let mut out = Out::new(&a.out);
     let mut r = Rng::new(a.seed);
     lone_timer_vs_polling(&mut out, if a.thorough { 200_000 } else { 20_000 });
+    late_cancel_vs_blocked(&mut out, if a.thorough { 300 } else { 30 });
     forced_same_instant(&mut out, if a.thorough { 20_000 } else { 3_000 });
     flood(&mut out, 8, if a.thorough { 400_000 } else { 100_000 });
     let scenarios: Vec<Scenario> = if a.thorough {
